@@ -21,6 +21,8 @@ SPEC = dict(
         "SymVerif.C43.tdiv_qr",
         "SymVerif.C43.gcdext_bezout",
         "SymVerif.C43.gcdext_spec_bezout",
+        "SymVerif.C43.gcdext_window",
+        "SymVerif.C43.gcdext",
         "SymVerif.C43.invert",
         "SymVerif.C43.invert_meaning",
         "SymVerif.C43.invert_fails_iff",
@@ -70,8 +72,9 @@ SPEC = dict(
          "parse-*, work-<family>",
     not_covered=[
         "FLINT and Piranha backends (libraries not installed)",
-        "exact GMP cofactor normalisation of mp_gcdext is not proved (gcdext_full stated; exhaustive small range, "
-        "random big arguments and the harness oracle gcdext-norm check it); mp_nextprime is compared only",
+        "mp_nextprime is compared with the specification only (its fuel argument needs Bertrand's postulate; "
+        "Boost's Miller-Rabin is trusted anyway); mp_primorial (uses the sieve, C33), mp_and, conversions, "
+        "rational_class arithmetic: correspondence only",
         "Boost library primitives (divide_qr, pow, gcd, lcm, powm, find_lsb, operator&, miller_rabin_test) and "
         "GMP itself are trusted to meet their documentation",
         "mp_get_d/mp_set_d (GMP truncates, Boost rounds to nearest: eval_double(Integer(2^53+3)) differs in the "
@@ -100,20 +103,20 @@ SPEC = dict(
                "and exponents, Newton integer roots (invariant + termination, any starting guess) with sign and "
                "exactness flag, sqrt/rootrem/sqrtrem/perfect squares, perfect powers (prime-exponent loop and "
                "its number theory), factorial, Fibonacci/Lucas by 2x2 matrix squaring, binomial (exact division "
-               "at every step), Jacobi/Legendre/Kronecker symbols against Mathlib's jacobiSym; extended gcd: "
-               "gcd and Bezout identity. The unrepaired code is refuted on the minimal witnesses.",
+               "at every step), Jacobi/Legendre/Kronecker symbols against Mathlib's jacobiSym; extended gcd: gcd, "
+               "Bezout identity and exactly the cofactors GMP documents. The unrepaired code is refuted on the "
+               "minimal witnesses.",
     level_note="Three-way tie: every generated op runs through the gmp, boostmp (and gmpxx) builds of the working "
                "tree and through the Lean driver, which prints the specification value and cross-checks the "
                "Boost model; the harness oracle re-checks the defining inequalities with schoolbook arithmetic. "
                "Higher layers (work families) are compared backend against backend through a table regenerated "
-               "from the GMP build. Not proved: GMP's cofactor normalisation for mp_gcdext, mp_nextprime.",
+               "from the GMP build. Not proved: mp_nextprime (compared only).",
     technique="Lean 4 executable specification over Int/Nat + loop-by-loop model of mp_boost.cpp (well-founded "
               "recursion for the Euclid, Newton, Jacobi and matrix-power loops) + equality theorems by loop "
               "invariants (Bezout combination; x >= floor root by integer weighted AM-GM; residue classes for "
               "square-and-multiply; (2|n)^k and quadratic reciprocity for the Jacobi recursion; k!|product of k "
               "consecutive integers) ; translator tabulating GMP results for cross-backend comparison; fork + "
               "time limit to observe non-termination.",
-    partial=["gcdext_bezout (gcd and Bezout identity proved; equality of the cofactors with GMP's normalisation "
-             "stated as gcdext_full, checked by correspondence and oracle only)"],
+    partial=[],
     run_timeout=1500,
 )
